@@ -33,7 +33,7 @@ What is an order-sensitive *consumer* (a site):
      `Counter`, `dict.fromkeys`?? no: only the listed ones), and set comprehensions over a set.
 
 Site identity (stable under unrelated edits): (module, enclosing function qualname, kind, source text of the
-iterable, ordinal among equal keys).  Line numbers are informational.
+iterable [+ source text of the key function], ordinal among equal keys).  Line numbers are informational.
 """
 from __future__ import annotations
 
@@ -273,7 +273,11 @@ class Audit:
                 self._node(mod, qual, n, sc, parents)
 
     def _site(self, mod, qual, kind, iterable, node, cls):
-        self.sites.append({"module": mod, "function": qual, "kind": kind, "iterable": ast.unparse(iterable),
+        text = ast.unparse(iterable)
+        if kind.endswith("-key") and isinstance(node, ast.Call):
+            # the key function is part of the identity: a justified `key=lineno` does not justify `key=len`
+            text += " key=" + next(ast.unparse(k.value) for k in node.keywords if k.arg == "key")
+        self.sites.append({"module": mod, "function": qual, "kind": kind, "iterable": text,
                            "iterable_type": cls, "line": getattr(node, "lineno", 0)})
 
     def _reduced(self, n, parents) -> bool:
